@@ -29,6 +29,8 @@ const (
 	eWrongType
 	eEmbeddedOwner
 	eEmbeddedForged
+	eBarePostByOther
+	eBarePostByOwner
 	eKinds
 )
 
@@ -49,6 +51,11 @@ func c09Entry(kind int) (json string, genuine bool) {
 		return `"` + c09A + `/gone"`, false
 	case eWrongType:
 		return `{"type":"Note","content":"not an activity"}`, false
+	case eBarePostByOther:
+		// not an activity at all: a post (with a loadable author of this host) listed directly
+		return `{"type":"Note","content":"bare","attributedTo":"` + c09A + `/other"}`, false
+	case eBarePostByOwner:
+		return `{"type":"Note","content":"bare","attributedTo":"` + c09A + `/actor"}`, false
 	case eEmbeddedOwner:
 		return `{"type":"Like","actor":{"type":"Person","id":"` + c09A + `/actor","name":"me"},` + note + `}`, true
 	default:
